@@ -330,10 +330,55 @@ def _reg(c):
 
 
 def _reach_instr_avoiding(fn, start, target, avoid):
+    """is `target` reachable from just after `start` without executing `avoid`?  Edges are pruned when the branch condition is
+    decided by constants that phi nodes picked up on this very path (e.g. an inlined helper's `return -1` followed by the
+    caller's `if (rc < 0) return`), so correlated tests do not produce infeasible paths."""
+    def ev(v, env, depth=0):
+        if v.kind == "int":
+            return v.v
+        if v.kind == "null":
+            return 0
+        if v.kind != "reg" or depth > 6:
+            return None
+        if v.v in env:
+            return env[v.v]
+        d = fn.defs.get(v.v)
+        if d is None:
+            return None
+        if d.op in ("zext", "sext", "trunc", "bitcast"):
+            return ev(d.ops[0], env, depth + 1)
+        if d.op == "icmp":
+            x, y = ev(d.ops[0], env, depth + 1), ev(d.ops[1], env, depth + 1)
+            if x is None or y is None:
+                return None
+            bits = 64
+            p = d.x["pred"]
+            if p[0] == "u":
+                x, y = x % (1 << bits), y % (1 << bits)
+            return int({"eq": x == y, "ne": x != y, "slt": x < y, "sle": x <= y, "sgt": x > y, "sge": x >= y,
+                        "ult": x < y, "ule": x <= y, "ugt": x > y, "uge": x >= y}[p])
+        if d.op in ("xor", "and", "or"):
+            x, y = ev(d.ops[0], env, depth + 1), ev(d.ops[1], env, depth + 1)
+            if x is None or y is None:
+                return None
+            return {"xor": x ^ y, "and": x & y, "or": x | y}[d.op]
+        return None
+
     seen = set()
-    dq = deque([(start.block, start.idx + 1)])
+    dq = deque([(start.block, start.idx + 1, None, ())])
     while dq:
-        b, k = dq.popleft()
+        b, k, prev, envt = dq.popleft()
+        env = dict(envt)
+        if k == 0 and prev is not None:
+            for i in b.instrs:
+                if i.op != "phi":
+                    break
+                env.pop(i.res, None)
+                for val, lab in i.x["incoming"]:
+                    if lab == prev.name:
+                        c = ev(val, env) if val.kind != "reg" or val.v in env else env.get(val.v)
+                        if c is not None:
+                            env[i.res] = c
         stop = False
         for i in b.instrs[k:]:
             if i is avoid:
@@ -343,10 +388,17 @@ def _reach_instr_avoiding(fn, start, target, avoid):
                 return True
         if stop:
             continue
-        for s in b.succs:
-            if s not in seen:
-                seen.add(s)
-                dq.append((s, 0))
+        t = b.term
+        succs = list(b.succs)
+        if t.op == "br" and len(t.x["targets"]) == 2 and t.ops and t.x["targets"][0] != t.x["targets"][1]:
+            c = ev(t.ops[0], env)
+            if c is not None:
+                succs = [fn.blocks[t.x["targets"][0] if c else t.x["targets"][1]]]
+        for s_ in succs:
+            key = (s_.name, b.name, tuple(sorted(env.items())))
+            if key not in seen and len(seen) < 20000:
+                seen.add(key)
+                dq.append((s_, 0, b, tuple(sorted(env.items()))))
     return False
 
 
